@@ -2,7 +2,7 @@
    `exact <lemma>` and followed by Print Assumptions (audited by ./check on every run). *)
 From V.lib Require Import Base.
 From V.c13 Require Import C13Spec C13Model.
-From V.c17 Require Import C17Spec C17Model C17RbspProofs C17WriterProofs.
+From V.c17 Require Import C17Spec C17Model C17RbspProofs C17WriterProofs C17EbspProofs.
 
 (* the 0xFF-run code of payload type (Go uint accumulator) and payload size (uint32
    accumulator) decodes to the value and leaves the rest of the input untouched: every value
@@ -34,6 +34,23 @@ Theorem C17_list_roundtrip_rbsp : forall msgs,
   extract_rbsp_all (rbsp_of msgs) = XOk (observed msgs).
 Proof. exact rbsp_roundtrip. Qed.
 Print Assumptions C17_list_roundtrip_rbsp.
+
+(* the bytes the writer model emits (through the C13 EBSP writer model) are the emulation-
+   prevented plain serialisation followed by the trailing-bits byte *)
+Theorem C17_writer_is_escape : forall msgs,
+  msgs_ok msgs = true -> write_sei_messages msgs = escape (rbsp_of msgs).
+Proof. exact writer_is_escape_ok. Qed.
+Print Assumptions C17_writer_is_escape.
+
+(* THE list round trip, on the real (emulation-prevented) byte stream, through the C13 models of
+   bits.EBSPWriter and bits.EBSPReader: for every NON-EMPTY message list, any types, any sizes,
+   any payload bytes (needing emulation prevention, ending in zero bytes, equal to 80, ...):
+   ExtractSEIData (WriteSEIMessages msgs) = the (type, payload) list, no trailing-bits error *)
+Theorem C17_list_roundtrip : forall msgs,
+  msgs <> [] -> msgs_ok msgs = true ->
+  extract_sei_data (write_sei_messages msgs) = XOk (observed msgs).
+Proof. exact list_roundtrip_ebsp. Qed.
+Print Assumptions C17_list_roundtrip.
 
 Example C17_list_roundtrip_rbsp_hyp :
   let msgs := [mkMsg 5 3 [0; 0; 1]; mkMsg 300 0 []; mkMsg 255 2 [128; 0]] in
